@@ -1,5 +1,6 @@
 SPECIFICATION Spec
 CONSTANT Names = {"x"}
 CONSTANT Shapes <- ShapesAll
+CONSTANT Flags3 <- FlagSets
 INVARIANT Ok
 CHECK_DEADLOCK FALSE
